@@ -132,8 +132,21 @@ func (_this *RulesEventReceiver) OnPositiveInt(value uint64) {
 
 func (_this *RulesEventReceiver) OnNegativeInt(value uint64) {
 	_this.context.NotifyNewObject(true)
-	_this.context.CurrentEntry.Rule.OnKeyableObject(&_this.context, DataTypeInt, negint(value))
+	_this.context.CurrentEntry.Rule.OnKeyableObject(&_this.context, DataTypeInt, negativeIntKey(value))
 	_this.receiver.OnNegativeInt(value)
+}
+
+// negativeIntKey returns -value in the same form that OnInt and OnBigInt use
+// for that number, so that duplicate key detection sees one value.
+func negativeIntKey(value uint64) interface{} {
+	if value == 0 {
+		return uint64(0)
+	}
+	if value <= 1<<63 {
+		return -int64(value-1) - 1
+	}
+	v := new(big.Int).SetUint64(value)
+	return v.Neg(v)
 }
 
 func (_this *RulesEventReceiver) OnInt(value int64) {
